@@ -184,12 +184,29 @@ def session_binding(chk, thorough):
                 emit({"ev": "Wire"})
     mib = [bytes([43, 6, 1, 4, 1, 206, 15, 5, i]) for i in range(1, 6)]
     nsess = 0
-    for cn in ("v2c", "v1", "v3-md5"):
+    def wrap(session):
+        """limit_rps= path: the session built its own RPSPolicer; record every consultation of it (it still sleeps for real)"""
+        pol = getattr(session, "_policer", None)
+        if pol is None:
+            return
+        orig = pol.get_timeout
+
+        def rec_get_timeout(ts):
+            emit({"ev": "Grant"})
+            return orig(ts)
+        pol.get_timeout = rec_get_timeout
+
+    for cn, variant in [(c, v) for c in ("v2c", "v1", "v3-md5") for v in ("policer", "limit_rps")]:
         cfg = std[cn]
+        if variant == "limit_rps" and cn == "v1" and not thorough:
+            continue
+        kw = dict(policer=Rec()) if variant == "policer" else dict(limit_rps=200, allow_bulk=False)
         # sync
         holder = {}
         emit({"ev": "Sess"})
-        api = apidrv.SyncApi(Sink(), cfg, lambda req: holder["r"](req), timeout=0.3, policer=Rec())
+        api = apidrv.SyncApi(Sink(), cfg, lambda req: holder["r"](req), timeout=0.5, **kw)
+        if variant == "limit_rps":
+            wrap(api.session)
         agent = ag.Agent(engine=cfg.engine or None) if cfg.engine else ag.Agent()
         holder["r"] = walks.honest_responder(agent, api.cfgref, mib, 2)
         s = api.session
@@ -199,7 +216,7 @@ def session_binding(chk, thorough):
             list(s.getnext("1.3.6.1.4.1.9999.5"))
             if cfg.ver != "v1":
                 list(s.getbulk("1.3.6.1.4.1.9999.5", 2))
-            list(s.fetch("1.3.6.1.4.1.9999.5"))
+            list(s.fetch("1.3.6.1.4.1.9999.5"))           # GETBULK arm, or the GETNEXT arm (v1 / allow_bulk=False)
         except Exception:
             pass
         api.close()
@@ -208,7 +225,9 @@ def session_binding(chk, thorough):
         async def go():
             holder2 = {}
             emit({"ev": "Sess"})
-            api2 = await apidrv.AsyncApi.create(Sink(), cfg, lambda req: holder2["r"](req), timeout=0.3, policer=Rec())
+            api2 = await apidrv.AsyncApi.create(Sink(), cfg, lambda req: holder2["r"](req), timeout=0.5, **(dict(policer=Rec()) if variant == "policer" else kw))
+            if variant == "limit_rps":
+                wrap(api2.session)
             holder2["r"] = walks.honest_responder(agent, api2.cfgref, mib, 2)
             s2 = api2.session
             try:
